@@ -15,7 +15,7 @@ R_EARTH = 6_371_000.0
 RULE = (
     "Hypothesis draws configuration dictionaries: closure (OAAHOC only with ustar), precision, footprint, analytic, halo "
     "(absent/None/0/float), modes (absent/even pair), output_levels (absent/list incl. unsorted)/full_output, ref_lat/ref_lon present "
-    "or absent, 1..3 towers of different heights placed by lat/lon, scalar or list forcing of 1..3 steps (ustar xor z0, physically "
+    "or absent, 1..3 towers of different heights placed by lat/lon, scalar or list forcing of 1..3 steps (ustar, z0, or both - z0 then takes precedence as documented -, physically "
     "consistent by construction), optional timestamps, surface_flux_shape, src_loc; a tower index, a time index and optionally a "
     "user-supplied flux array. Oracle (differential, same process, same thread setting => exact): run_bldfm_single(cfg, tower, step) for every step of the series in order vs "
     "compute_wind_fields -> vertical_profiles -> ideal_source -> steady_state_transport_solver called by hand with numbers read from "
@@ -86,6 +86,10 @@ def _case(draw):
         worst = min(gen.psi_m(t["z_m"] / L) for t in towers for L in mol)
         z0max = zmin * math.exp(min(worst, 0.0) - 0.7)
         met["z0"] = z0max * draw(gen.logfl(0.01, 1.0))
+        if draw(st.integers(0, 2)) == 0:
+            # a measured friction velocity given next to the site's roughness length: documented rule, z0 takes precedence
+            us = [0.4 * w / draw(gen.fl(3.0, 9.0)) for w in ws]
+            met["ustar"] = us if aslist else us[0]
     else:
         if closure == "OAAHOC":
             us = [math.sqrt(0.0856 * 0.845 * w / draw(gen.fl(3.0, 8.0))) for w in ws]
@@ -175,7 +179,7 @@ def check_case(case):
     flux = None if case["flux"] is None else np.asarray(case["flux"], float)
     nt = len(m["wind_speed"]) if isinstance(m["wind_speed"], list) else 1
     out.label("closure=" + sol["closure"], "footprint" if sol.get("footprint") else "dispersion",
-              "analytic" if sol.get("analytic") else "numerical", "z0-forcing" if "z0" in m else "ustar-forcing",
+              "analytic" if sol.get("analytic") else "numerical", ("z0-and-ustar-given" if "ustar" in m else "z0-forcing") if "z0" in m else "ustar-forcing",
               "halo=" + ("absent" if "halo" not in d else str(type(d["halo"]).__name__)),
               "levels=" + ("list" if d.get("output_levels") else "full" if d.get("full_output") else "default"),
               "flux=user" if flux is not None else "flux=ideal", "geo" if "ref_lat" in d else "no-geo",
@@ -233,7 +237,7 @@ def check_case(case):
             out.bad(f"step {step}: dtype {aj['conc'].dtype} vs {cb.dtype}")
         if step == i:
             a = aj
-    if a["tower_name"] != tw["name"] or tuple(a["tower_xy"]) != txy:
+    if a["tower_name"] != tw["name"] or tuple(float(v) for v in a["tower_xy"]) != tuple(float(v) for v in txy):
         out.bad(f"result carries tower {a['tower_name']!r} {a['tower_xy']}, expected {tw['name']!r} {txy}")
     if cfg != cfg_before:
         out.bad("run_bldfm_single modified the configuration object it was given")
